@@ -4,9 +4,11 @@ import (
 	"encoding/json"
 	"fmt"
 	"os"
+	"runtime"
 	"runtime/debug"
 	"strings"
 	"testing"
+	"time"
 
 	"pgregory.net/rapid"
 
@@ -475,6 +477,21 @@ func FuzzC11Image(f *testing.F) {
 			return
 		}
 		cas := c11FuzzCase(data, pad)
+		// diagnostics only: the fuzzing engine discards a worker's output and kills a worker whose
+		// execution takes more than 10 s, so leave a stack dump behind when one is slow
+		done := make(chan struct{})
+		defer close(done)
+		go func() {
+			select {
+			case <-done:
+			case <-time.After(6 * time.Second):
+				if dir := os.Getenv("VERIF_WORK"); dir != "" {
+					buf := make([]byte, 1<<20)
+					buf = buf[:runtime.Stack(buf, true)]
+					os.WriteFile(fmt.Sprintf("%s/fuzz-slow-%d.txt", dir, os.Getpid()), append([]byte(fmt.Sprintf("len(data)=%d pad=%d image=%d bytes\n", len(data), pad, len(cas.Spec.Raw))), buf...), 0o644)
+				}
+			}
+		}()
 		_, sig, err := c11Run(cas)
 		if err != nil {
 			b, _ := json.Marshal(map[string]interface{}{"property": "C11", "check": "crash", "sig": sig, "msg": err.Error(), "case": cas})
